@@ -209,7 +209,7 @@ class C11(Prop):
     harness = "h_stats.c"
     theorems = ["EaselModel.Props.C11." + t for t in (
         "score2bin_interval", "bins_partition", "add_never_faults", "add_counts_once", "histogram_accounts", "bookkeeping_true",
-        "sorted_flag_sound", "tail_query_agrees", "rank_query_agrees", "tailmass_query_agrees",
+        "sorted_flag_sound", "collect_then_tail", "tail_query_agrees", "rank_query_agrees", "tailmass_query_agrees",
         "settail_agrees_with_raw_data", "settailbymass_agrees_with_raw_data", "declare_censoring_agrees", "lognormal_fit_closed_form", "lognormal_mu_is_maximiser",
         "gumbel_profile_concave", "gumbel_complete_fit_near_optimal", "gumbel_censored_fit_near_optimal",
         "exp_fit_closed_form", "exp_fit_is_maximiser", "gumbel_mu_is_maximiser", "lawless_is_derivative", "gumbel_complete_fit_stationary",
